@@ -21,6 +21,7 @@ import (
 	"strings"
 	"sync"
 	"sync/atomic"
+	"time"
 
 	"github.com/dgraph-io/badger/v4/skl"
 	"github.com/dgraph-io/badger/v4/y"
@@ -368,7 +369,96 @@ func runC22(c *Ctx) error {
 	if err := c22Stress(c); err != nil {
 		return err
 	}
+	c22HotKey(c)
 	return c22SameKey(c)
+}
+
+// c22HotKey: one writer overwrites ONE existing internal key (same key, same version) as fast as it
+// can with values of very different encoded sizes, readers Get it and read it through iterators in
+// tight loops. setValue publishes offset and size of the new value in one atomic word; a reader that
+// combined one put's offset with another's size returns bytes that are no value ever written
+// (checked by the CRC inside the value and by the meta byte tied to the length).
+func c22HotKey(c *Ctx) {
+	dur := 1500 * time.Millisecond
+	if c.N >= 3000 {
+		dur = 8 * time.Second
+	}
+	s := skl.NewSkiplist(256 << 20)
+	key := y.KeyWithTs([]byte("hot"), 7)
+	// neighbours so that iterators have something to walk over
+	s.Put(y.KeyWithTs([]byte("a"), 1), y.ValueStruct{Value: c22Val(0, 0, 1)})
+	s.Put(y.KeyWithTs([]byte("z"), 1), y.ValueStruct{Value: c22Val(0, 0, 2)})
+	mk := func(seq uint64) y.ValueStruct {
+		r := uint32(0) // short
+		if seq%2 == 1 {
+			r = 39 // long
+		}
+		if seq%7 == 3 {
+			r = uint32(seq % 40)
+		}
+		v := c22Val(9, seq, r)
+		return y.ValueStruct{Value: v, Meta: byte(len(v)), UserMeta: byte(seq)}
+	}
+	s.Put(key, mk(0))
+	var stop atomic.Bool
+	var torn, reads, puts atomic.Int64
+	var firstBad atomic.Value
+	check := func(v y.ValueStruct, how string) {
+		reads.Add(1)
+		w, seq, ok := c22ValOK(v.Value)
+		if !ok || w != 9 || v.Meta != byte(len(v.Value)) || v.UserMeta != byte(seq) {
+			if torn.Add(1) == 1 {
+				n := len(v.Value)
+				if n > 24 {
+					n = 24
+				}
+				firstBad.Store(fmt.Sprintf("%s: len=%d meta=%d umeta=%d first bytes %x", how, len(v.Value), v.Meta, v.UserMeta, v.Value[:n]))
+			}
+		}
+	}
+	var wg sync.WaitGroup
+	wg.Add(1)
+	go func() {
+		defer wg.Done()
+		for seq := uint64(1); !stop.Load() && seq < 1200000; seq++ {
+			s.Put(key, mk(seq))
+			puts.Add(1)
+		}
+	}()
+	for rd := 0; rd < 6; rd++ {
+		wg.Add(1)
+		go func(rd int) {
+			defer wg.Done()
+			it := s.NewIterator()
+			defer it.Close()
+			for !stop.Load() {
+				switch rd % 3 {
+				case 0:
+					check(s.Get(key), "Get")
+				case 1:
+					it.Seek(key)
+					if it.Valid() && y.SameKey(it.Key(), key) {
+						check(it.Value(), "Iterator.Seek+Value")
+					}
+				default:
+					it.SeekToFirst()
+					it.Next()
+					if it.Valid() && y.SameKey(it.Key(), key) {
+						check(it.Value(), "Iterator.Next+Value")
+					}
+				}
+			}
+		}(rd)
+	}
+	time.Sleep(dur)
+	stop.Store(true)
+	wg.Wait()
+	fb, _ := firstBad.Load().(string)
+	c.Oracle(torn.Load() == 0, "skl-conc-torn-value-under-overwrite", "a reader of a key that is being overwritten saw bytes that no put ever stored (offset and size of different puts combined)",
+		c22J{"torn": torn.Load(), "reads": reads.Load(), "overwrites": puts.Load(), "first": fb})
+	c.Extra["hotkey_reads"] = reads.Load()
+	c.Extra["hotkey_overwrites"] = puts.Load()
+	c.Count("hot-key-phase")
 }
 
 // value payload for the stress: writer id, sequence number, filler, CRC — a torn value fails the CRC
